@@ -75,7 +75,15 @@ func rulePileMerge(c *Ctx, rule string) {
 		}
 		e = cb.Params[0]
 	}
-	derivedFromE := func(v ssa.Value) bool {
+	// the callback may only collect the matches into a captured list that merge walks afterwards
+	// (matched = append(matched, e.(*pileInterval))): that list's variable in merge
+	var matchList *ssa.Alloc
+	isMatchList := func(v ssa.Value) bool {
+		ld, ok := v.(*ssa.UnOp)
+		return ok && ld.Op == token.MUL && matchList != nil && ld.X == ssa.Value(matchList)
+	}
+	var derivedFromE func(v ssa.Value) bool
+	derivedFromE = func(v ssa.Value) bool {
 		for i := 0; i < 6; i++ {
 			switch x := v.(type) {
 			case *ssa.Parameter:
@@ -85,6 +93,9 @@ func rulePileMerge(c *Ctx, rule string) {
 			case *ssa.UnOp:
 				// an element of the slice of matches
 				if ia, ok := x.X.(*ssa.IndexAddr); ok && viaGet && ia.X == ssa.Value(query) {
+					return true
+				}
+				if ia, ok := x.X.(*ssa.IndexAddr); ok && isMatchList(ia.X) {
 					return true
 				}
 				v = x.X
@@ -101,31 +112,53 @@ func rulePileMerge(c *Ctx, rule string) {
 		return false
 	}
 	collected, imagesMoved, startUpd, endUpd := false, false, false, false
-	for _, b := range cb.Blocks {
-		for _, ins := range b.Instrs {
-			st, ok := ins.(*ssa.Store)
-			if !ok {
-				continue
-			}
-			// r = append(r, e)
-			if call, ok := st.Val.(*ssa.Call); ok {
-				if bi, ok := call.Call.Value.(*ssa.Builtin); ok && bi.Name() == "append" && len(call.Call.Args) == 2 {
-					// the appended values: a slice literal holding e, or a spread of iv.images
-					src := call.Call.Args[1]
-					if name, ok := fieldOfAny(st.Addr); ok && name == "images" {
-						if u, ok := src.(*ssa.UnOp); ok && derivedFromE(u) {
-							if n2, ok := fieldOfAny(u.X); ok && n2 == "images" {
-								imagesMoved = true
+	scan := []*ssa.Function{cb}
+	if !viaGet {
+		for _, b := range cb.Blocks {
+			for _, ins := range b.Instrs {
+				st, ok := ins.(*ssa.Store)
+				if !ok {
+					continue
+				}
+				fv, ok := st.Addr.(*ssa.FreeVar)
+				if !ok {
+					continue
+				}
+				call, ok := st.Val.(*ssa.Call)
+				if !ok {
+					continue
+				}
+				bi, ok := call.Call.Value.(*ssa.Builtin)
+				if !ok || bi.Name() != "append" || len(call.Call.Args) != 2 {
+					continue
+				}
+				sl, ok := call.Call.Args[1].(*ssa.Slice)
+				if !ok {
+					continue
+				}
+				holdsE := false
+				if a, ok := sl.X.(*ssa.Alloc); ok {
+					for _, r := range *a.Referrers() {
+						if ia, ok := r.(*ssa.IndexAddr); ok {
+							for _, rr := range *ia.Referrers() {
+								if s2, ok := rr.(*ssa.Store); ok && derivedFromE(s2.Val) {
+									holdsE = true
+								}
 							}
 						}
-					} else if sl, ok := src.(*ssa.Slice); ok {
-						if a, ok := sl.X.(*ssa.Alloc); ok {
-							for _, r := range *a.Referrers() {
-								if ia, ok := r.(*ssa.IndexAddr); ok {
-									for _, rr := range *ia.Referrers() {
-										if s2, ok := rr.(*ssa.Store); ok && derivedFromE(s2.Val) {
-											collected = true
-										}
+					}
+				}
+				if !holdsE {
+					continue
+				}
+				// the variable the closure captured
+				for _, mb := range merge.Blocks {
+					for _, mi := range mb.Instrs {
+						if mc, ok := mi.(*ssa.MakeClosure); ok && mc.Fn == ssa.Value(cb) {
+							for i, bv := range mc.Bindings {
+								if i < len(cb.FreeVars) && cb.FreeVars[i] == fv {
+									if al, ok := bv.(*ssa.Alloc); ok {
+										matchList = al
 									}
 								}
 							}
@@ -133,37 +166,76 @@ func rulePileMerge(c *Ctx, rule string) {
 					}
 				}
 			}
-			if name, ok := fieldOfAny(st.Addr); ok {
-				dep := false
-				var walk func(v ssa.Value, d int)
-				walk = func(v ssa.Value, d int) {
-					if d > 5 || dep {
-						return
-					}
-					if derivedFromE(v) {
-						dep = true
-						return
-					}
-					switch x := v.(type) {
-					case *ssa.Call:
-						for _, a := range x.Call.Args {
-							walk(a, d+1)
-						}
-					case *ssa.BinOp:
-						walk(x.X, d+1)
-						walk(x.Y, d+1)
-					case *ssa.Phi:
-						for _, ed := range x.Edges {
-							walk(ed, d+1)
+		}
+		if matchList != nil {
+			scan = append(scan, merge)
+		}
+	}
+	for _, sf := range scan {
+		for _, b := range sf.Blocks {
+			for _, ins := range b.Instrs {
+				st, ok := ins.(*ssa.Store)
+				if !ok {
+					continue
+				}
+				// r = append(r, e)
+				if call, ok := st.Val.(*ssa.Call); ok {
+					if bi, ok := call.Call.Value.(*ssa.Builtin); ok && bi.Name() == "append" && len(call.Call.Args) == 2 {
+						// the appended values: a slice literal holding e, or a spread of iv.images
+						src := call.Call.Args[1]
+						if name, ok := fieldOfAny(st.Addr); ok && name == "images" {
+							if u, ok := src.(*ssa.UnOp); ok && derivedFromE(u) {
+								if n2, ok := fieldOfAny(u.X); ok && n2 == "images" {
+									imagesMoved = true
+								}
+							}
+						} else if sl, ok := src.(*ssa.Slice); ok {
+							if a, ok := sl.X.(*ssa.Alloc); ok {
+								for _, r := range *a.Referrers() {
+									if ia, ok := r.(*ssa.IndexAddr); ok {
+										for _, rr := range *ia.Referrers() {
+											if s2, ok := rr.(*ssa.Store); ok && derivedFromE(s2.Val) {
+												collected = true
+											}
+										}
+									}
+								}
+							}
 						}
 					}
 				}
-				walk(st.Val, 0)
-				if dep && name == "start" {
-					startUpd = true
-				}
-				if dep && name == "end" {
-					endUpd = true
+				if name, ok := fieldOfAny(st.Addr); ok {
+					dep := false
+					var walk func(v ssa.Value, d int)
+					walk = func(v ssa.Value, d int) {
+						if d > 5 || dep {
+							return
+						}
+						if derivedFromE(v) {
+							dep = true
+							return
+						}
+						switch x := v.(type) {
+						case *ssa.Call:
+							for _, a := range x.Call.Args {
+								walk(a, d+1)
+							}
+						case *ssa.BinOp:
+							walk(x.X, d+1)
+							walk(x.Y, d+1)
+						case *ssa.Phi:
+							for _, ed := range x.Edges {
+								walk(ed, d+1)
+							}
+						}
+					}
+					walk(st.Val, 0)
+					if dep && name == "start" {
+						startUpd = true
+					}
+					if dep && name == "end" {
+						endUpd = true
+					}
 				}
 			}
 		}
@@ -682,10 +754,38 @@ func swappedKeys(k1, k2 ssa.Value) bool {
 		}
 		return
 	}
-	norm := func(v ssa.Value) ssa.Value { // a load of a local variable stands for that variable
+	var norm func(v ssa.Value) ssa.Value
+	norm = func(v ssa.Value) ssa.Value { // a load of a local variable stands for that variable
 		if u, ok := v.(*ssa.UnOp); ok && u.Op == token.MUL {
 			if al, ok := u.X.(*ssa.Alloc); ok {
 				return al
+			}
+			// an element of another local key array (ba := [2]sf{ab[1], ab[0]}): what was stored there
+			if ia, ok := u.X.(*ssa.IndexAddr); ok {
+				if al, ok := ia.X.(*ssa.Alloc); ok {
+					if i, ok := constIntVal(ia.Index); ok {
+						var stored ssa.Value
+						n := 0
+						for _, r := range *al.Referrers() {
+							ia2, ok := r.(*ssa.IndexAddr)
+							if !ok {
+								continue
+							}
+							if j, ok := constIntVal(ia2.Index); !ok || j != i {
+								continue
+							}
+							for _, rr := range *ia2.Referrers() {
+								if st, ok := rr.(*ssa.Store); ok && st.Addr == ssa.Value(ia2) {
+									stored = st.Val
+									n++
+								}
+							}
+						}
+						if n == 1 {
+							return norm(stored)
+						}
+					}
+				}
 			}
 		}
 		return v
